@@ -92,7 +92,7 @@ def concretize_outcome(kind, rnd, fx, fmt):
     if kind in BODY:
         return {"k": "body", "c": kind, "hdr": rnd.random() < 0.7}
     if kind == "http":
-        return {"k": "http", "status": rnd.choice([404, 404, 503, 403])}
+        return {"k": "http", "status": rnd.choice([404, 404, 503, 403, 300, 304, 308])}  # 3xx: a final answer that is not the file either
     if kind == "proto":
         size = len(fx.arch[fmt]["G"])
         return {"k": "proto", "how": rnd.choice(["drop", "timeout", "short"]), "after": rnd.choice([0, 1, 65536, size // 3, size - 1])}
@@ -351,6 +351,12 @@ DIRECTED = [
     ("offline-nothing-there", "tar", "none", True, True, {}, [], None, "lf", {"net": "offline"}),
     ("no-url-wrong-sized-archive", "tgz", "none", True, True, {"arch": "Th"}, [], None, "lf", {"net": "nourl"}),
     ("http-404-test-mode", "bz2", "fail", False, False, {}, ["http"], None, "crlf"),
+    # a FINAL answer with a 3xx status (multiple choices, not modified, redirect limit reached) is not the file either: its body
+    # must not become the archive / the document, whether or not the track declares sizes
+    ("http-300-undeclared-plain", "none", "none", False, False, {}, [{"k": "http", "status": 300}], None),
+    ("http-304-undeclared-gz", "gz", "none", False, False, {}, [{"k": "http", "status": 304}], None, "crlf"),
+    ("http-308-undeclared-stale-tmp", "bz2", "ok", False, False, {"tmp": "stale", "off": "X"}, [{"k": "http", "status": 308}], None),
+    ("http-300-declared", "zst", "none", True, True, {}, [{"k": "http", "status": 300}], None),
     # an archive of the right size whose payload is damaged (gzip: only the CRC in the trailer tells): tool present and failing after
     # it streamed everything / library only / downloaded
     ("corrupt-payload-gz-tool-fails-late", "gz", "ok", True, True, {"arch": "C"}, [], None),
